@@ -330,6 +330,9 @@ func genDaemonScenario(r *vlib.Rng, nsess int, bigEvents bool, uncorrelated bool
 			s.EvTS = append(s.EvTS, t)
 			q = append(q, mk(vlib.AuLogin(t, seq, strconv.Itoa(s.Pid), s.Sid)))
 			ne := r.Intn(8)
+			if k%40 == 7 {
+				ne = 260 + r.Intn(100) // a busy session: in phased scenarios all of it is held before the login comes
+			}
 			for e := 0; e < ne; e++ {
 				t := nextTS()
 				seq++
